@@ -200,6 +200,10 @@ def run_check(pid: str, tier: str) -> int:
                 hit = reached.get(f, set()) & set(ex[f])
                 reach_summary[f] = {"executable_lines": len(ex[f]), "reached": len(hit),
                                     "unreached_sample": [l for l in ex[f] if l not in hit][:25]}
+        # side file for tools/reachunion.py (union of what all checks executed in the package; not part of the evidence schema)
+        os.makedirs(os.path.join(env.WORK, "reach"), exist_ok=True)
+        with open(os.path.join(env.WORK, "reach", f"{pid}-{tier}.json"), "w") as fh:
+            json.dump({"reached": {f: sorted(v) for f, v in reached.items()}, "executable": ex}, fh)
     except Exception as e:      # noqa
         reach_summary = {"error": repr(e)}
     for m in getattr(mod, "MUST", []):
